@@ -14,7 +14,7 @@ var propC11 = &pProp{
 	level:  "fault_enumeration",
 	rule:   "one evaluation = one simulated Parse call of a real generated parser; per (grammar, input, options) case the fault-free execution is recorded and then every single fault placement (each code-block invocation of that history x {returned error, panic with an error, with a string, with another type}) is injected when the history has <= 60 events (sampled above), plus seeded multi-fault sets (2-6 faults incl. identical messages at one position for de-duplication); each faulted run is judged against its fault-free twin: nothing else changes (history up to the first panic, value), the error is the documented list of parser errors whose Inner is pointer-identical to the injected value, messages are dedupe(injected errors in order) with file:line:col (offset): rule <display name or name> prefixes (action position = match start seen by the block; predicate/state offset from the reference model), a recovered panic is last with a nil value, Recover(false) lets it reach the caller; distinct_nontrivial = distinct (grammar, input, options) cases in which at least one fault fired",
 	assume: []string{"code-block outcomes are keyed by (site, n-th invocation) so a faulted run and its twin make identical decisions except at the fault", "inputs are valid UTF-8, left recursion only in directly left-recursive rules, for which the reference model says which errors the abandoned growth attempt takes with it; the only non-injected error is the synthetic no-match error", "where the reference model does not apply (memoised runs, throw/recover grammars) predicate/state error positions are checked for shape and rule only"},
-	bias:   specBias{nullableLoops: 0, leftRec: 15, lrDirect: true, states: 40, preds: 70, actions: 90, throws: 30, optimized: 35, display: 40, unicode: 40, topLoop: 7},
+	bias:   specBias{nullableLoops: 0, leftRec: 15, lrDirect: true, states: 40, preds: 70, actions: 90, throws: 30, optimized: 35, display: 40, unicode: 40, topLoop: 7, deepNest: 7, uniNames: 15},
 	tier: func(tier string) pParams {
 		if tier == "thorough" {
 			return pParams{batches: 8, grammars: 400, inputs: 8, optSets: 3, extra: 40}
@@ -54,6 +54,19 @@ var propC11 = &pProp{
 					Pool: drawPool(r, false), Seed: r.u64(), MultiSets: p.extra, SingleMax: 60, StepCap: 400000})
 			}
 		}
+		if gp.G.IsDeepNest() {
+			// deep parses: hundreds of rules active at once when a block fails
+			for k := 0; k < 2; k++ {
+				o := drawOpts(r, gp, 20, 25)
+				o.AllowInvalidUTF8, o.MaxExpr, o.Debug = false, 0, false
+				plan := drawPlan(r, gp.HasState)
+				plan.MaxEvents = 4000
+				depth := []int{40, 300, 700}[r.intn(3)]
+				reqs = append(reqs, &parsersim.Request{ID: fmt.Sprintf("c11-%s-deep%d", gp.Name, k), Kind: "c11", Parser: gp.Name,
+					Call: parsersim.Call{Input: gp.G.SampleNestedInput(r2{r}, depth), Opts: o, Plan: plan},
+					Pool: drawPool(r, false), Seed: r.u64(), MultiSets: 6, SingleMax: 40, StepCap: 20000000})
+			}
+		}
 		if gp.G.IsTopLoop() {
 			// long parses: hundreds to thousands of rounds, a large share of the
 			// code blocks returning errors (thousands of error records in one call)
@@ -86,6 +99,8 @@ var propC11 = &pProp{
 				out[k[6:]] = v
 			}
 		}
+		out["budget_cut_with_errors_recorded_before"] = st["budget_cut_runs_with_errors_before_the_cut"]
+		out["budget_cut"] = st["budget_cut_runs"]
 		return out
 	},
 }
